@@ -7,7 +7,9 @@ RULE = ("E2: breadth-first search over ALL operation histories (batch "
         "provision demand 1-2 x duration 1-2, allocation on every machine "
         "for owner none/a/b x duration 1-2, time advance; 27+ operations) on "
         "a real Cluster with M machines up to the stated depth, with state "
-        "matching on canonical snapshots; after every transition: pools are a "
+        "matching on canonical snapshots (pools in order, live allocations, "
+        "counters, plus resume point and canonicalised locals of every "
+        "suspended generator); after every transition: pools are a "
         "permutation of the machines, each machine's pool matches its live "
         "activations, a refused call left the snapshot unchanged, the three "
         "reported counters equal the truth.  E1: the same partition/counter "
@@ -75,10 +77,10 @@ def run(rep, tier, seed):
                               {"engine": "E2", "M": M,
                                "history": [list(h) for h in hist]},
                               detail, sc and "E2-cluster-M%d" % M)
-        rep.add_sample({"engine": "E2", "M": M, "history_example": [
-            ["prov", "a", 1], ["ingest", 1, 2], ["alloc", 0, "a", 1],
-            ["tick"]], "states": stats["states"],
-            "transitions": stats["transitions"]})
+        for h in stats.get("sample_histories", [])[-1:]:
+            rep.add_sample({"engine": "E2", "M": M, "history": h,
+                            "note": "one of the deepest operation histories "
+                            "expanded by this run (reached a new state)"})
     e2_states = rep.extra.get("e2_states", 0)
     cs = e1_cases(tier, seed)
     e1.sweep(rep, cs, mons, {"tie": 1}, tie=True)
